@@ -41,8 +41,8 @@ class RequirementConstraintEvaluationResultSchema(Schema):
     A schema to (de-)serialize RequirementConstraintEvaluationResult
     """
 
-    requirement_constraints_fulfilled = fields.Boolean()
-    requirement_is_conditional = fields.Boolean()
+    requirement_constraints_fulfilled = fields.Boolean(allow_none=True)
+    requirement_is_conditional = fields.Boolean(allow_none=True)
 
     format_constraints_expression = fields.String(load_default=None)
     hints = fields.String(load_default=None)
